@@ -133,6 +133,7 @@ SUBCHECKS = {
         rule="case = stream multiset x partition into zones x utility set x label form (flat / nested / explicit tree); "
              "non-trivial = inter-zone recovery happens (TS < TZ) or both sides of the summed targets are non-zero; counted separately in stats",
         cases=cases, run=run,
-        bound=lambda t: "2-3 streams over 12 stream types, <=3 zones, 4 utility sets" if t == "quick" else "2-4 streams over 18 types (latent incl.), <=4 zones, 4 utility sets, all label forms",
+        bound=lambda t: ("2-3 streams over 12 stream types, <=3 zones, 5 utility sets" if t == "quick" else "2-4 streams over 18 types (latent incl.), <=4 zones, 5 utility sets, all label forms")
+        + " + same-name streams and unit-operation targeting variants",
     ),
 }
